@@ -13,7 +13,7 @@ use serde::{Deserialize, Serialize};
 use serde_json::json;
 use std::str::FromStr;
 
-pub const RULE: &str = "generated: high-entropy secrets (20-40 random characters, so substring hits are not accidental), requests accepted and refused at every rule (defect sets from the C13 catalogue) with scripted provider answers. One sub-check presents the same refused request 2-101 times in a row with nothing else validated in between anywhere in the process. Observed: every log record at DEBUG level or above emitted during validation (capturing `log` logger at max level Trace so TRACE formatting code runs too), Display and {:?}/{:#?} of every returned error, of all five key types, of the provider request/response, of builders, of CanonicalRequest, SigV4Authenticator and SigV4AuthenticatorResponse. Oracle: none of them contains the secret, any derived key (kDate, kRegion, kService, kSigning) or -- when the presented signature is wrong -- the signature the reference model computes, rendered raw, hex (lower/upper), base64 (standard / URL-safe, padded or not) or as a decimal / hex byte list ('[67, 28, ...]', the shape a derived Debug prints). Non-trivial: a refused request with a wrong but well-formed signature, or a rendering of a value that holds key material; distinct by (secret, defect set, carrier).";
+pub const RULE: &str = "generated: high-entropy secrets (20-40 random characters, so substring hits are not accidental), requests accepted and refused at every rule (defect sets from the C13 catalogue) with scripted provider answers. One sub-check presents the same refused request 2-101 times in a row with nothing else validated in between anywhere in the process. Observed: every log record at DEBUG level or above emitted during validation (capturing `log` logger at max level Trace so TRACE formatting code runs too), Display and {:?}/{:#?} of every returned error, of all five key types, of the provider request/response, of builders, of CanonicalRequest, SigV4Authenticator and SigV4AuthenticatorResponse. Oracle: none of them contains the secret (nor the secret of any of the previous 48 validations on the same thread), any derived key (kDate, kRegion, kService, kSigning) or -- when the presented signature is wrong -- the signature the reference model computes, rendered raw, hex (lower/upper), base64 (standard / URL-safe, padded or not) or as a decimal / hex byte list ('[67, 28, ...]', the shape a derived Debug prints). Non-trivial: a refused request with a wrong but well-formed signature, or a rendering of a value that holds key material; distinct by (secret, defect set, carrier).";
 
 #[derive(Clone, Debug, Serialize, Deserialize)]
 pub struct LeakCase {
@@ -35,6 +35,10 @@ pub struct Burst {
 }
 
 static BURST_LOCK: std::sync::Mutex<()> = std::sync::Mutex::new(());
+
+thread_local! {
+    static RECENT_SECRETS: std::cell::RefCell<std::collections::VecDeque<String>> = const { std::cell::RefCell::new(std::collections::VecDeque::new()) };
+}
 
 /// A client stuck in a retry loop: the very same request presented many times in a row, with no other
 /// validation in between anywhere in the process (the bursts of all worker threads are serialised).
@@ -109,7 +113,21 @@ pub fn check_plan_leak(pl: &PlanLeak, cc: &mut CaseCtx) -> CheckResult {
         cc.class("secret-occurs-in-request-skipped");
         return Ok(());
     }
+    // secrets this thread handled in EARLIER validations must not surface now either (a cache that talks when it evicts)
+    let earlier: Vec<String> = RECENT_SECRETS.with(|r| {
+        let mut r = r.borrow_mut();
+        let snapshot: Vec<String> = r.iter().filter(|s| **s != pl.plan.entry.secret && !carried.contains(s.as_str())).cloned().collect();
+        r.push_back(pl.plan.entry.secret.clone());
+        if r.len() > 48 {
+            r.pop_front();
+        }
+        snapshot
+    });
+    for s in &earlier {
+        nd.push(("the secret key of an earlier validation on this thread".into(), s.clone()));
+    }
     cc.class(if refused { "refused" } else { "accepted" });
+    cc.class_if(earlier.len() >= 16, "with->=16-earlier-secrets-on-this-thread");
     cc.class_if(case.cfg.service == "s3", "service-s3");
     cc.class_if(refused && presented != sig, "refused-with-wrong-signature");
     cc.nontrivial(digest_of(&[&case.req.digest().to_le_bytes(), &[pl.spoil], secret]));
@@ -130,8 +148,8 @@ pub fn subs() -> Vec<Box<dyn AnySub>> {
         }),
         Box::new(Sub {
             name: "same-request-many-times-in-a-row",
-            quick: 700,
-            thorough: 15_000,
+            quick: 250,
+            thorough: 5_000,
             strat: || {
                 (crate::gen::plan(crate::gen::PlanOpts { plain_spelling: true, ..crate::gen::quiet_opts() }), 1u8..7, prop_oneof![3 => 2u16..13, 2 => 13u16..41, 1 => Just(101u16), 1 => Just(65u16)])
                     .prop_map(|(plan, spoil, times)| Burst { leak: PlanLeak { plan, spoil }, times })
